@@ -1,49 +1,22 @@
 package main
 
 import (
-	"context"
-	"encoding/xml"
-	"errors"
 	"fmt"
-
-	"mellium.im/xmpp/jid"
-	"mellium.im/xmpp/stanza"
-
-	"verifharness/common"
+	"net"
+	"time"
 )
 
-type failReader struct {
-	t []xml.Token
-	k int
-	i int
-}
-
-func (f *failReader) Token() (xml.Token, error) {
-	if f.i == f.k {
-		return nil, errors.New("reader failed")
-	}
-	t := f.t[f.i]
-	f.i++
-	return t, nil
-}
-
 func main() {
-	ctx := context.Background()
-	body := xml.StartElement{Name: xml.Name{Local: "body"}}
-	st := stanza.Message{Type: stanza.ChatMessage}.StartElement()
-	toks := []xml.Token{st, body, xml.CharData("hi"), body.End(), st.End()}
-	for k := 0; k <= len(toks); k++ {
-		rs, _ := common.NewRawSession(0, "jabber:client", jid.MustParse("me@example.net/r"), jid.MustParse("example.net"))
-		err := rs.S.Send(ctx, &failReader{t: toks, k: k})
-		w1 := string(rs.Out.Bytes())
-		err2 := rs.S.Send(ctx, stanza.Presence{}.Wrap(nil))
-		fmt.Printf("k=%d first=%v wire1=%q second=%v wire=%q\n", k, err, w1, err2, rs.Out.Bytes())
+	c1, c2 := net.Pipe()
+	_ = c2
+	done := make(chan error, 1)
+	go func() { b := make([]byte, 10); _, err := c1.Read(b); done <- err }()
+	time.Sleep(20 * time.Millisecond)
+	fmt.Println("set zero:", c1.SetReadDeadline(time.Time{}))
+	select {
+	case err := <-done:
+		fmt.Println("read returned:", err)
+	case <-time.After(200 * time.Millisecond):
+		fmt.Println("read still blocked")
 	}
-	// connection write error
-	rs, _ := common.NewRawSession(0, "jabber:client", jid.MustParse("me@example.net/r"), jid.MustParse("example.net"))
-	rs.Out.Fail = errors.New("conn failed")
-	err := rs.S.Send(ctx, stanza.Message{}.Wrap(nil))
-	rs.Out.Fail = nil
-	err2 := rs.S.Send(ctx, stanza.Presence{}.Wrap(nil))
-	fmt.Printf("connfail first=%v second=%v wire=%q\n", err, err2, rs.Out.Bytes())
 }
